@@ -249,6 +249,25 @@ add("C33", "TLC on PyTree.tla (every tree_math operation defined tree-wise and o
     "dict argument and of a dict result; jax.vmap must reproduce the specification (otherwise machinery failure).",
     TRUST + "leaves are 1-d; arrays of rank 3 with sizes (2,3,2); four function shapes (elementwise, contraction, two outputs, batch-constant output).")
 
+add("C03", "TLC on Calculus.tla (operator expressions as SSA programs with symbolic values and symbolic derivatives; derivative rules checked against exact dual-number differentiation on the rational sub-language) + replay of every program into nifty.cl at dyadic points",
+    "One TLC action per operator constructor (key extraction, sums, differences, products, 25 point-wise functions with and without parameters, scaling, "
+    "constant shift, a linear operator, contraction, dot product, Gaussian energy); the denotation of a slot is a vector of symbolic expressions and "
+    "the Jacobian the symbolic derivative (chain / product / power rule, derivative table written from mathematics). TLC checks on every state that "
+    "the symbolic derivative of rational expressions equals forward-mode differentiation with exact dual numbers. All 2-slot programs with every "
+    "function, all 3-slot programs with four functions and simulated deeper ones are built in nifty.cl: value on a field = value on a "
+    "linearization = Eval(val), dense Jacobian = Eval(D val), adjoint = transpose, metric of an energy = J^T J.",
+    TRUST + "real fields, two pixels per key; non-smooth / undefined points are skipped; JAX operator wrappers and complex inputs are not covered.")
+add("C04", "TLC on Calculus.tla (programs over both keys) + replay: simplify_for_constant_input and EnergyAdapter(constants=...) against the value and the free-key columns of the symbolic Jacobian",
+    "For every program over both keys and each key held constant the specialised operator must live on the other key, keep the target, reproduce the "
+    "value and exactly the Jacobian columns (and for energies the metric block) of the free key; EnergyAdapter with constants must report value and "
+    "gradient of the free key only and one minimiser step must leave the constant key untouched.",
+    TRUST + "two keys (two proper subsets); real fields.")
+add("C05", "TLC on Calculus.tla (programs with re-used slots = shared Python objects) + replay: optimise_operator(op) against the symbolic value and Jacobian at up to four points; the original operator re-evaluated",
+    "Slots may be used several times, so the built operator contains the same object in several places (shared leaves and sub-trees; a vacuity "
+    "witness shows such programs are reached). The optimised operator must keep domain and target and reproduce value and Jacobian of the "
+    "specification at points different from the optimiser's single random self-check; the original must be unaffected.",
+    TRUST + "a failing self-check of the optimiser on programs that are not finite on standard-normal inputs (sqrt / log of negative numbers) counts as a refusal.")
+
 
 def main():
     props = [json.loads(l) for l in open(os.path.join(HERE, "properties.jsonl"))]
